@@ -276,6 +276,12 @@ func c10Stale(c *core.Ctx, d c10Decoder, r *core.RNG, mode int) {
 		b2 = r.Bytes(12)
 	}
 	reused, fresh := d.newv(), d.newv()
+	if mode%5 == 4 {
+		// a value that has been through several decodes already
+		for k := 1 + r.Intn(4); k > 0; k-- {
+			core.Guard(func() { d.dec(reused, d.inputs(r)) })
+		}
+	}
 	var e0, e1, e2 error
 	c.Eval(3)
 	if mode%8 >= 6 && len(b1) > 1 {
